@@ -19,8 +19,14 @@
  *            (a) was clean, in a forked child (expected to abort) once per case and
  *            site when (a) faulted, so that one over-read does not end the exploration.
  *   The same is done for whole images (signal on the last line in memory) through
- *   vbi3_raw_decoder_decode() and the legacy vbi_raw_decode(), with sliced[] of exactly
- *   max_lines records, and for the legacy vbi_bit_slicer_init()/vbi_bit_slice().
+ *   vbi3_raw_decoder_decode() and the legacy vbi_raw_decode(), and for the legacy
+ *   vbi_bit_slicer_init()/vbi_bit_slice().  Output side: payload buffers of exactly the
+ *   payload size and sliced[] of exactly max_lines (0, 1, D-1, D of D decodable lines)
+ *   records end at a second guard page (a write behind them is caught and keyed), then
+ *   the same call runs on exact heap blocks under ASan; buffer_size smaller than the
+ *   payload must be refused without a write (canary, then ASan); the sampling point
+ *   arrays of the debug interface (caller's max_points, the decoder's points[512]) are
+ *   exercised with long blank lines in a child under ASan.
  *
  * Oracle: a read past the end of the line / image (guard page fault confirmed by ASan)
  * or any ASan report.  The analytic bound alone is never a violation: where it is
@@ -37,6 +43,11 @@
  *    then asserts - an abort, not a memory access (C01/C04 ground).
  *  - the legacy slicer cannot reject anything (returns void); it is only configured with
  *    raw_samples that vbi3_bit_slicer_set_params() admits for the same signal.
+ *  - strict (0/1/2) and sp->offset are not varied: they only decide admission, the slicers never see them.
+ *  - the window of template positions is placed relative to samples_per_line - data_samples as restated
+ *    here (not relative to the tree's cri_samples), so that the set of lines is the same for every tree and
+ *    the counters clean_decodes_in_fixed_line_set / clean_decodes_fingerprint_sum can be compared between
+ *    the unchanged and a repaired tree ("which lines decode without over-read, and to what").
  *  - a "nominal" phase drives the library's own generator (_vbi_raw_vbi_image) through
  *    the raw decoder; it only counts decoded lines (functional clause = C04) so that a
  *    repair of the over-read can be shown not to refuse signals that decode today.
@@ -198,7 +209,7 @@ static void build_rates(int s, int coarse)
                 for (unsigned i = 0; i < sizeof named_coarse / sizeof *named_coarse; i++) ADD(named_coarse[i]);
         } else {
                 for (unsigned i = 0; i < sizeof named / sizeof *named; i++) ADD(named[i]);
-                unsigned step = mc_tier == MC_THOROUGH ? 200000 : 2000000;
+                unsigned step = mc_tier == MC_THOROUGH ? 250000 : 2000000;
                 /* ladder, offset so that it does not sit on round numbers only */
                 for (unsigned v = (lo / step) * step + step / 3; v <= RATE_CAP; v += step) ADD(v);
                 if (mc_tier == MC_THOROUGH)   /* dense where step/phase_shift rounding changes: integer samples per bit */
@@ -590,7 +601,7 @@ static void cfg_verdict(struct cfg *c, int api)
                          * unsigned (tr is unsigned int), so the first rising edge drives the threshold out of range */
                         if (api == API_LEG && c->fi->gmask) mc_count("cfg_unreached_legacy_16bit_formats", 1);
                         else { mc_count("cfg_unreached_other", 1);
-                               mc_note("unreached: %s %s rate=%u (%.2f samples/bit) spl=%u soff=%u fmt=%s +%ld", path_name[path], svc_short(c->par), c->rate, c->rate / (double) svc_maxrate(c->par), c->spl, c->soff, c->fi->name, ps); }
+                               if (c->fi == &FM[0] && api == API_V3) mc_note("unreached: %s %s rate=%u (%.2f samples/bit) spl=%u soff=%u fmt=%s +%ld", path_name[path], svc_short(c->par), c->rate, c->rate / (double) svc_maxrate(c->par), c->spl, c->soff, c->fi->name, ps); }
                 } else
                         mc_outcome("%s %s: bound holds, no over-read", path_name[path], sn);
         }
@@ -721,11 +732,14 @@ static void window_case(uint64_t idx, void *arg)
                                 mc_count("configurations", 1);
                                 nomatch_lines(&c);
                                 /* window of template positions whose CRI ends around the search limit */
-                                double lim = c.soff + c.bs0.cri_samples;
-                                int p0 = (int) floor(lim - tp[0].cri_end - 2.5 * cb - 24), p1 = (int) ceil(lim - tp[0].cri_end + 1.5 * cb + 10);
+                                /* the limit as the unchanged library computes it (samples_per_line - data_samples), restated here so
+                                 * that the set of lines does not depend on the tree under test; 20 more positions below it
+                                 * for a tree that ends the search earlier */
+                                double lim = c.spl - (unsigned)((c.rate * (int64_t)(p->frc_bits + p->payload)) / p->bit_rate);
+                                int p0 = (int) floor(lim - tp[0].cri_end - 2.5 * cb - 44), p1 = (int) ceil(lim - tp[0].cri_end + 1.5 * cb + 10);
                                 unsigned allf = (1u << NFILL) - 1;
                                 forced_lines(&c, tp, p0, p1, si == 0 ? allf : 1u << FILL_00, si == 0 && fi == 0 ? allf : 1u << FILL_00);
-                                step_lines(&c, (int) floor(lim - 4 * cb - 24), (int) ceil(lim + 8));
+                                step_lines(&c, (int) floor(lim - 4 * cb - 44), (int) ceil(lim + 8));
                                 more_phases(&c, p0, p1);
                                 cfg_verdict(&c, API_V3);
                                 if (c.have_leg) cfg_verdict(&c, API_LEG);
@@ -765,8 +779,8 @@ static void sweep_case(uint64_t idx, void *arg)
         forced_lines(&c, tp, -(int)(tp[0].cri_end / 2), (int) c.spl, mc_tier == MC_THOROUGH ? 0xF : 0x3, 0x1);
         step_lines(&c, 0, c.spl);
         {
-                double cb = j->rate / (double) p->cri_rate, lim = c.bs0.cri_samples;
-                more_phases(&c, (int) floor(lim - tp[0].cri_end - 2.5 * cb - 24), (int) ceil(lim - tp[0].cri_end + 1.5 * cb + 10));
+                double cb = j->rate / (double) p->cri_rate, lim = c.spl - (unsigned)((c.rate * (int64_t)(p->frc_bits + p->payload)) / p->bit_rate);
+                more_phases(&c, (int) floor(lim - tp[0].cri_end - 2.5 * cb - 44), (int) ceil(lim - tp[0].cri_end + 1.5 * cb + 10));
         }
         cfg_verdict(&c, API_V3); cfg_verdict(&c, API_LEG);
         if (c.fi->f == VBI_PIXFMT_YUV420) {
@@ -881,8 +895,8 @@ static void rawdec_case(uint64_t idx, void *arg)
                 size_t psz = (size_t) nlines * _VBI3_RAW_DECODER_MAX_WAYS;
                 int8_t *pat3 = malloc(psz), *patl = malloc(psz);
                 memcpy(pat3, rd3->pattern, psz); memcpy(patl, rdl->pattern, psz);
-                double lim = bs->cri_samples;
-                int p0 = (int) floor(lim - tp[0].cri_end - 2.5 * cb - 24), p1 = (int) ceil(lim - tp[0].cri_end + 1.5 * cb + 10);
+                double lim = spl - (unsigned)((j->rate * (int64_t)(p->frc_bits + p->payload)) / p->bit_rate);
+                int p0 = (int) floor(lim - tp[0].cri_end - 2.5 * cb - 44), p1 = (int) ceil(lim - tp[0].cri_end + 1.5 * cb + 10);
                 int cri_over = 0;
                 for (int pos = p0 - 1; pos <= p1; pos++)
                         for (int w = 0; w < 2; w++) {
@@ -1179,25 +1193,27 @@ static void points_case(uint64_t idx, void *arg)
         const _vbi_service_par *p = SVC[j->svc];
         struct tmpl tp; synth(p, j->rate, 1, 0.0, &tp);
         int reported = 0;
-        /* long lines first; the first abort ends the case (a sanitizer report with symbolisation costs ~0.2 s) */
-        for (int big = 1; big >= 0 && !reported; big--) {
-                unsigned spl = big ? 2048 : spl_min_decoder(p, j->rate);
-                if (big && spl_min_decoder(p, j->rate) > 2048) continue;
-                for (int mode = 0; mode <= 1 && !reported; mode++)
-                        for (int fill = 0; fill <= NFILL && !reported; fill++) {
+        /* per entry point: long lines first, the first abort ends it (a sanitizer report with symbolisation costs ~0.2 s) */
+        for (int mode = 0; mode <= 1; mode++) {
+                int aborted = 0;
+                for (int big = 1; big >= 0 && !aborted; big--) {
+                        unsigned spl = big ? 2048 : spl_min_decoder(p, j->rate);
+                        if (big && spl_min_decoder(p, j->rate) > 2048) continue;
+                        for (int fill = 0; fill <= NFILL && !aborted; fill++) {
                                 struct ptrun r = { mode, p, j->rate, spl, fill == NFILL ? FILL_00 : fill, fill == NFILL ? &tp : NULL, 0 };
                                 mc_count("evaluations", 1);
                                 if (!HAVE_ASAN) { pt_run(&r); continue; }
-                                int ab = child_aborts(pt_run, &r);
-                                if (ab == 1 && !reported) {
-                                        reported = 1;
-                                        mc_violation("sampling points: the CRI search stores a point per clocked CRI bit without limit (max_points / sp_lines[].points[512] overrun)",
-                                                     "%s: %s rate=%u Y8 samples_per_line=%u line %s: ASan abort (heap-buffer-overflow WRITE) with points[] of exactly %s entries",
-                                                     mode ? "vbi3_raw_decoder_decode in debug mode" : "vbi3_bit_slicer_slice_with_points", svc_short(p), j->rate, spl,
-                                                     fill == NFILL ? "with an early signal" : fill_name[fill], mode ? "512 (library owned)" : "cri_bits+frc_bits+payload_bits");
-                                }
-                                if (ab == 1) mc_count("points_overrun_cases", 1);
+                                if (child_aborts(pt_run, &r) != 1) continue;
+                                aborted = 1;
+                                mc_count(mode ? "points_overrun_raw_decoder_debug_cases" : "points_overrun_slice_with_points_cases", 1);
+                                if (reported) continue;
+                                reported = 1;
+                                mc_violation("sampling points: the CRI search stores a point per clocked CRI bit without limit (max_points / sp_lines[].points[512] overrun)",
+                                             "%s: %s rate=%u Y8 samples_per_line=%u line %s: ASan abort (heap-buffer-overflow WRITE) with points[] of exactly %s entries",
+                                             mode ? "vbi3_raw_decoder_decode in debug mode" : "vbi3_bit_slicer_slice_with_points", svc_short(p), j->rate, spl,
+                                             fill == NFILL ? "with an early signal" : fill_name[fill], mode ? "512 (library owned)" : "cri_bits+frc_bits+payload_bits");
                         }
+                }
         }
         mc_hash h; mc_hash_init(&h); mc_hash_u64(&h, 0x9f); mc_hash_u64(&h, idx); mc_distinct(h.a);
         free(tp.y);
@@ -1256,9 +1272,9 @@ int main(int argc, char **argv)
         /* interleave services so that the expensive ones spread over the workers */
         for (int k = 0; k < MAXRATES; k++) for (int s = 0; s < nsvc; s++) if (k < nrates[s]) { JOBS[q].svc = s; JOBS[q].rate = RATES[s][k]; q++; }
         uint64_t fine_rates = njobs;
-        mc_meta("bound", "%d service rows x fine rate grid (%llu (service,rate) pairs, admission minimum .. 40 MHz, %s ladder + named capture rates + low-pass threshold +-1 Hz%s) x samples_per_line {min, min+7, 2048; thorough also min+1, next multiple of 720} x %d pixel formats x sample_offset {0,3}: no-CRI lines + limit window; coarse grid: every template position; images: 1 and 3 lines per field, sequential/interlaced, synchronous or not, unknown line numbers, max_lines {0,1,n-1,n}",
-                nsvc, (unsigned long long) fine_rates, mc_tier == MC_THOROUGH ? "200 kHz" : "2 MHz", mc_tier == MC_THOROUGH ? " + 0/+-12.5 kHz around every integer samples-per-bit rate" : "",
-                mc_tier == MC_THOROUGH ? NFMT_ALL : NFMT_QUICK);
+        mc_meta("bound", "%d service rows x fine rate grid (%llu (service,rate) pairs, admission minimum .. 40 MHz, %s ladder + named capture rates + low-pass threshold +-1 Hz%s) x samples_per_line {min, min+7, 2048; thorough also min+1, next multiple of 720} x %d pixel formats x sample_offset {0,3}: no-CRI lines + limit window; coarse grid (%s capture rates + admission minimum + low-pass threshold): every template position and every 0x00->0xFF step position; images: 1 and 3 lines per field, sequential/interlaced, synchronous or not, unknown line numbers, last line in memory carries the late signal, max_lines {0,1,D-1,D}; buffer_size 1..payload bytes; sampling point arrays with blank 2048 sample lines",
+                nsvc, (unsigned long long) fine_rates, mc_tier == MC_THOROUGH ? "250 kHz" : "2 MHz", mc_tier == MC_THOROUGH ? " + 0/+-12.5 kHz around every integer samples-per-bit rate" : "",
+                mc_tier == MC_THOROUGH ? NFMT_ALL : NFMT_QUICK, mc_tier == MC_THOROUGH ? "9" : "4");
         mc_meta("assume", "sampling rates above 40 MHz and PAL8 are not enumerated; the legacy slicer is only configured with raw_samples that vbi3_bit_slicer_set_params admits");
         mc_meta("assume", "image content only selects the CRI-search iteration at which CRI/FRC are recognised; read addresses are a function of that iteration and the configuration (checked: the measured extent never exceeds the analytic worst case, see outcomes)");
 
